@@ -333,6 +333,38 @@ def run_c03_c09(r: Run, prop):
             seen.add((clause, json.dumps(wit)))
             r.violation(clause, wit, f"isotopic_variants({pairs_of(comp)}, {req}, z={z}): {detail}", expected=dl.split("\t")[2][:400] if "\t" in dl else None,
                         observed={"lines": [line], "impl": il[:400]}, model=dl.split("\t")[0][:400], kind=kind)
+    if prop == "C09":
+        # compositions far beyond what the exact oracle can expand (the product of the most abundant isotopes'
+        # abundances, with the counts, underflows a double): the clauses that need no oracle — non-empty, finite,
+        # non-negative, sum <= 1, strictly increasing m/z inside [lightest, heaviest] isotopologue
+        huge = [[("Mg", 3200)], [("Mg", 3200), ("C", 10)], [("Si", 9500)], [("K", 11000)],
+                [("C", 55800), ("H", 111600), ("O", 55800)], [("C", 6144), ("H", 12288), ("O", 6144)]]
+        hcases = [(c, req, z) for c in huge for req, z in (("n:5", 1), ("guess", 0), ("f:1/2", -2), ("n:300", 2))]
+        hlines = [f"brain\t{pairs_of(c)}\t{req}\t{z}\t{fr(PROTON)}\tvec" for c, req, z in hcases]
+        for (c, req, z), line, il in zip(hcases, hlines, r.impl("brain", hlines, stall=120)):
+            ip = parse_pattern(il)
+            r.case(("huge", req.split(":")[0], z, il.split(" ")[0]), {"line": line[:160], "impl": il[:120]})
+            why = None
+            if isinstance(ip, str):
+                why = ("total", f"returned {il[:40]}")
+            else:
+                pk = ip[1]
+                lo = sum(T[s]["lo"] * n for s, n in c)
+                hi = sum(T[s]["hi"] * n for s, n in c)
+                conv = (lambda m: m) if z == 0 else (lambda m: (m + z * PROTON) / abs(z))
+                lo_c, hi_c = sorted([conv(lo), conv(hi)])
+                if not pk:
+                    why = ("nonempty", "empty pattern for a non-empty composition")
+                elif any(b[0] <= a[0] for a, b in zip(pk, pk[1:])):
+                    why = ("mz-increasing", "m/z values are not strictly increasing")
+                elif any(q[0] < lo_c - Fraction(1, 1000) or q[0] > hi_c + Fraction(1, 1000) for q in pk):
+                    why = ("mz-range", "an m/z lies outside [lightest, heaviest] isotopologue")
+                elif any(q[1] < 0 for q in pk) or sum(q[1] for q in pk) > 1 + Fraction(1, 10 ** 9):
+                    why = ("intensity", "negative intensity or a sum above 1")
+            if why is not None:
+                corr_ok = False
+                r.violation(why[0], {"elements": sorted(s for s, _ in c)[:4], "scale": "huge"},
+                            f"isotopic_variants({pairs_of(c)}, {req}, z={z}): {why[1]}", observed={"lines": [line], "impl": il[:300]})
     r.oblige(f"correspondence: isotopic_variants agrees with the model and the exact aggregated distribution ({prop} observables)", "corr", corr_ok)
     r.assumptions.append("f64 rounding not modelled: m/z compared to 1e-6, intensity ratios to 1e-9; variants whose share is within 1e-6 (relative) of the 1e-10 cut are skipped")
 
